@@ -46,6 +46,14 @@ TIcon == IsEvent("ICON") /\ LET e == Log[l] IN
          /\ Chk("C06:icon-ge-coupons", e.cD <= e.est)
          /\ Chk("C06:icon-matches-definition", e.c >= 2^e.lgk \div 4 => Abs(e.devPpm) * 10 <= RsePpm("cpc-union", e.lgk))
          /\ acc' = [lastEst |-> e.est] /\ UNCHANGED cell
+\* exact (not sampled) one-sided miss probability of the interval for a sketch of n items at sampling fraction theta, in ppm:
+\* the interval must contain the true count at least as often as its nominal confidence; stated tolerance: 1.5 x the
+\* nominal tail probability + 5 ppm (the pinned approximations reach 1.35 x at 3 std devs, 1.04 x at 2, < 1 at 1)
+TailPpm == <<158655, 22750, 1350>>
+TBBCov == IsEvent("BBCov") /\ LET e == Log[l] IN
+         /\ Chk("C06:binomial-bounds-exact-coverage-upper", \A k \in 1..3 : e.missUbPpm[k] * 2 <= TailPpm[k] * 3 + 10)
+         /\ Chk("C06:binomial-bounds-exact-coverage-lower", \A k \in 1..3 : e.missLbPpm[k] * 2 <= TailPpm[k] * 3 + 10)
+         /\ UNCHANGED <<cell, acc>>
 TBBInvalid == IsEvent("BBInvalid") /\ Chk("C06:invalid-arguments-refused", Log[l].refused = Log[l].of) /\ UNCHANGED <<cell, acc>>
 
 TBeginTrials == IsEvent("Begin") /\ Log[l].mode = "trials" /\ LET e == Log[l] IN
@@ -76,6 +84,6 @@ TVerdict == IsEvent("Verdict") /\ LET T == cell.T  s == Isqrt(T)
          /\ UNCHANGED <<cell, acc>>
 
 TInit == l = 1 /\ cell = <<>> /\ acc = <<>>
-TNext == TBeginGrid \/ TBB \/ TIcon \/ TBBInvalid \/ TBeginTrials \/ TTrial \/ TVerdict
+TNext == TBeginGrid \/ TBB \/ TBBCov \/ TIcon \/ TBBInvalid \/ TBeginTrials \/ TTrial \/ TVerdict
 TSpec == TInit /\ [][TNext]_tvars
 ====
